@@ -372,7 +372,7 @@ type c13Trace struct {
 type c13Variant struct {
 	Ph    string   `json:"ph"` // "alone-shared", "concurrent", "lockstep"
 	W     int      `json:"w"`  // the value of the global c13_which these states were given
-	N     int      `json:"n"` // how many states produced exactly this trace
+	N     int      `json:"n"`  // how many states produced exactly this trace
 	Trace c13Trace `json:"trace"`
 }
 
